@@ -508,12 +508,68 @@ class Ctx(object):
                                 lp.iter_term = _T('enumerate', v_) if (it0[1].tag == 'const' and it0[1][1] == 0) else v_
                             lp.driver_switch = cur
                             break
+            if lp.driver_bb is None:
+                self._window_driver(body, lp, blocks)
             ok_exits = [(a, b) for a, b in lp.exits if not self.rejecting(body, b)]
             lp.ok_exits = ok_exits
             lp.driver_only_exit = lp.driver_bb is not None and all(a == getattr(lp, 'driver_switch', None) for a, _ in ok_exits)
             res[h] = lp
         self._loops[k] = res
         return res
+
+    def _window_driver(self, body, lp, blocks):
+        """`while cursor < len(Y) { end = min(cursor + C, len(Y)); .. Y[cursor..end] ..; cursor = end }`: the loop walks the chunks of Y.
+        Recognised when the switch that leaves the loop tests `cursor < len(Y)` (leaving when false) for a cursor that is a window
+        cursor in the sense of terms.window_of.  The loop then counts as driven by `chunks(Y, C)`, its exit test being the exhaustion
+        of that walk."""
+        from .terms import window_of, T as _T, walk as _walk
+        cfg = self.cfgof(body)
+        for b in sorted(blocks):
+            t = body.block[b]['term']
+            if t['k'] != 'switch' or cfg.loop_of.get(b, [None])[-1] != lp.header:
+                continue
+            edges = [(str(v), tgt) for v, tgt in t['arms']] + [('otherwise', t['otherwise'])]
+            leaving = [(v, tgt) for v, tgt in edges if tgt not in blocks]
+            staying = [(v, tgt) for v, tgt in edges if tgt in blocks]
+            if len(leaving) != 1 or not staying:
+                continue
+            try:
+                c = self.eng.operand(body, b, TERM_IDX, t['discr'])
+            except Exception:
+                continue
+            # cursor < len(Y), leaving on false (0);  or  cursor >= len(Y), leaving on true
+            if c.tag != 'binop':
+                continue
+            op, x, y = c[1], c[2], c[3]
+            if op in ('Gt', 'Le'):
+                op, x, y = {'Gt': 'Lt', 'Le': 'Ge'}[op], y, x
+            leave_on_false = leaving[0][0] == '0'
+            if not ((op == 'Lt' and leave_on_false) or (op == 'Ge' and not leave_on_false)):
+                continue
+            if x.tag != 'lv' or not (y.tag == 'call' and y[1].split('::')[-1] == 'len' and len(y[2]) == 1):
+                continue
+            # the cursor's update is the window's upper bound: find it among the definitions
+            win = None
+            for d in self.eng.lv_defs(x):
+                if d.tag == 'call' and d[1].split('::')[-1] == 'min':
+                    win = window_of(_T('range', x, d), self.eng)
+                    if win is not None:
+                        break
+            if win is None:
+                continue
+            Y, C = win
+            a0, b0 = Y, y[2][0]
+            while a0.tag == 'mut':
+                a0 = a0[1]
+            while b0.tag == 'mut':
+                b0 = b0[1]
+            if a0 is not b0:
+                continue
+            lp.driver_bb = b
+            lp.driver_switch = b
+            lp.iter_term = _T('adapt', 'chunks', Y, C)
+            lp.window = (x, Y, C)
+            return
 
     def enclosing_loops(self, body, bb):
         cfg = self.cfgof(body)
